@@ -35,6 +35,26 @@ impl Fail {
     }
 }
 
+thread_local! {
+    static PREFIX_FAIL: std::cell::RefCell<Option<Fail>> = const { std::cell::RefCell::new(None) };
+}
+
+/// An oracle failure inside the scripted prefix that builds a start state is a violation like any
+/// other (found on a scripted history): `Model::init` reports it here instead of panicking, and the
+/// engines turn it into a violation with an empty path for that start state.
+pub fn prefix_fail(f: Fail) {
+    PREFIX_FAIL.with(|p| {
+        let mut p = p.borrow_mut();
+        if p.is_none() {
+            *p = Some(f);
+        }
+    });
+}
+
+pub fn take_prefix_fail() -> Option<Fail> {
+    PREFIX_FAIL.with(|p| p.borrow_mut().take())
+}
+
 pub trait Model: Sync {
     /// Explored state: the real objects (cloned at each branch) plus the
     /// oracle's own memory.
@@ -336,6 +356,7 @@ pub fn explore<M: Model>(m: &M, plan: &Plan, lim: &Limits) -> Explored {
                 let mut w = m.worker();
                 let mut l = Local::default();
                 let mut init_cache: HashMap<usize, M::S> = HashMap::new();
+                let mut init_failed: HashSet<usize> = HashSet::new();
                 loop {
                     if sh.stop.load(Ordering::Relaxed) {
                         break;
@@ -345,10 +366,22 @@ pub fn explore<M: Model>(m: &M, plan: &Plan, lim: &Limits) -> Explored {
                         break;
                     }
                     let (init, prefix) = &items[idx];
-                    let s0 = init_cache
-                        .entry(*init)
-                        .or_insert_with(|| m.init(&mut w, *init))
-                        .clone();
+                    if !init_cache.contains_key(init) {
+                        let _ = take_prefix_fail();
+                        let s = m.init(&mut w, *init);
+                        if let Some(f) = take_prefix_fail() {
+                            init_failed.insert(*init);
+                            if root_done.lock().unwrap().insert((*init, vec![usize::MAX])) {
+                                l.seqs += 1;
+                                record_fail(&mut l, &sh, *init, &[], f);
+                            }
+                        }
+                        init_cache.insert(*init, s);
+                    }
+                    if init_failed.contains(init) {
+                        continue;
+                    }
+                    let s0 = init_cache.get(init).unwrap().clone();
                     // replay the prefix; interior nodes are judged by whichever
                     // worker gets there first (root_done), so nothing is
                     // counted or reported twice
@@ -452,7 +485,11 @@ pub fn explore<M: Model>(m: &M, plan: &Plan, lim: &Limits) -> Explored {
 /// failure (if any) and the step index at which it occurred.
 pub fn replay<M: Model>(m: &M, init: usize, path: &[usize]) -> Option<(usize, Fail)> {
     let mut w = m.worker();
+    let _ = take_prefix_fail();
     let mut s = m.init(&mut w, init);
+    if let Some(f) = take_prefix_fail() {
+        return Some((0, f));
+    }
     for (i, &e) in path.iter().enumerate() {
         if let Err(f) = do_step(m, &mut w, &mut s, e) {
             return Some((i, f));
